@@ -406,6 +406,16 @@ type TwoMaps struct {
 	C map[string]Inner
 }
 
+// Wrapper-of-wrapper structs: a struct whose only field is a struct whose only
+// field is a pointer / map / slice / string ("pointer-shaped" all the way down).
+type WrapPtr1 struct{ P *int64 }
+type WrapPtr struct{ In WrapPtr1 }
+type WrapMap1 struct{ M map[string]int }
+type WrapMap struct{ In WrapMap1 }
+type WrapStr1 struct{ S *string }
+type WrapStr struct{ In WrapStr1 }
+type Wrap3 struct{ W WrapMap }
+
 // Inline2 inlines a struct that itself inlines a struct, behind other fields.
 type InlineL2 struct {
 	X int32
@@ -791,6 +801,30 @@ var Catalogue = []TypeEntry{
 	mk("[]NamedSlice", false, func(c *simkit.Choices) []NamedSlice {
 		return genSlice(c, func(c *simkit.Choices) NamedSlice { return NamedSlice(genSlice(c, func(c *simkit.Choices) int { return c.N(9) })) })
 	}),
+	mk("WrapPtr", true, func(c *simkit.Choices) WrapPtr {
+		if c.N(4) == 0 {
+			return WrapPtr{}
+		}
+		n := int64(c.N(5)) - 1
+		return WrapPtr{WrapPtr1{&n}}
+	}),
+	mk("WrapMap", true, func(c *simkit.Choices) WrapMap { return WrapMap{WrapMap1{genMap(c, func(c *simkit.Choices) int { return c.N(3) })}} }),
+	mk("WrapStr", true, func(c *simkit.Choices) WrapStr {
+		if c.N(4) == 0 {
+			return WrapStr{}
+		}
+		s := genStr(c)
+		return WrapStr{WrapStr1{&s}}
+	}),
+	mk("Wrap3", true, func(c *simkit.Choices) Wrap3 {
+		return Wrap3{WrapMap{WrapMap1{genMap(c, func(c *simkit.Choices) int { return c.N(3) })}}}
+	}),
+	mk("[]WrapPtr", true, func(c *simkit.Choices) []WrapPtr {
+		return genSlice(c, func(c *simkit.Choices) WrapPtr { n := int64(c.N(3)); return WrapPtr{WrapPtr1{&n}} })
+	}),
+	mk("map[string]WrapStr", true, func(c *simkit.Choices) map[string]WrapStr {
+		return genMap(c, func(c *simkit.Choices) WrapStr { s := genStr(c); return WrapStr{WrapStr1{&s}} })
+	}),
 	mk("Inline2", true, func(c *simkit.Choices) Inline2 {
 		return Inline2{Pad: genI(c), Head: genStr(c), L1: InlineL1{A: genStr(c), L2: InlineL2{X: int32(c.N(1000)), Y: genStr(c)}, B: c.N(100)}, Tail: genStr(c), N: uint16(c.N(65536))}
 	}),
@@ -905,6 +939,7 @@ func localRecordB() TypeEntry {
 }
 
 var families = map[string][]string{
+	"wrap":   {"WrapPtr", "WrapMap", "WrapStr", "Wrap3", "[]WrapPtr", "map[string]WrapStr", "Ptrs"},
 	"inner":  {"Inner", "Holder", "Nested", "Tagged", "[]*Inner", "Wide", "[]Wide", "OmitAll", "Ptrs", "Inline2", "TwoMaps"},
 	"named":  {"NamedSlice", "NamedMap", "NamedFields", "[]NamedSlice", "[]int", "map[string]string"},
 	"score":  {"Score", "[]Score", "map[string]Score", "Scored", "int"},
@@ -916,7 +951,7 @@ var families = map[string][]string{
 	"ifc":    {"interface{}", "[]interface{}", "map[string]interface{}", "[]map[string]interface{}", "Strs", "Tagged"},
 }
 
-var familyNames = []string{"packed", "inner", "named", "score", "simple", "kv", "folder", "local", "ifc"}
+var familyNames = []string{"wrap", "packed", "inner", "named", "score", "simple", "kv", "folder", "local", "ifc"}
 
 // PickRelated draws n types; half of the time all from one family (types
 // that contain each other), else independently.
@@ -1108,6 +1143,16 @@ func DeepEqLoose(a, b interface{}) bool {
 	return deepEqLoose(reflect.ValueOf(a), reflect.ValueOf(b))
 }
 
+// DeepEqLooseZero additionally identifies +0 and -0 (a float -0 travels
+// through JSON as the integer-syntax literal "-0", which is the integer 0).
+func DeepEqLooseZero(a, b interface{}) bool {
+	signedZeroEq = true
+	defer func() { signedZeroEq = false }()
+	return DeepEqLoose(a, b)
+}
+
+var signedZeroEq bool
+
 func deepEqLoose(a, b reflect.Value) bool {
 	if a.Type() != b.Type() {
 		return false
@@ -1150,6 +1195,10 @@ func deepEqLoose(a, b reflect.Value) bool {
 			}
 		}
 		return true
+	case reflect.Float32, reflect.Float64:
+		if signedZeroEq && a.Float() == 0 && b.Float() == 0 {
+			return true
+		}
 	}
 	return deepEq(a, b)
 }
